@@ -439,7 +439,6 @@ package stree
 //@   at after "slices.SortFunc(nodes, func(a, b *node[T]) int { return compare(a.X, b.X) })": ghost n1 = snap(nodes)
 //@   at after "slices.SortFunc(nodes, func(a, b *node[T]) int { return compare(a.X, b.X) })": assert [C01] forall k int :: {nodes[k]} 0 <= k && k < len(nodes) ==> 0 <= sp[k] && sp[k] < len(nodes) && nodes[k] == n0[addr(nodes, sp[k])] && nodes[k] != nil && fresh(nodes[k]) && nodes[k].X == keys[sp[k]] && sq[sp[k]] == k
 //@   at after "slices.SortFunc(nodes, func(a, b *node[T]) int { return compare(a.X, b.X) })": assert [C01] forall a int, b int :: {nodes[a], nodes[b]} 0 <= a && a < b && b < len(nodes) ==> nodes[a] != nodes[b] && rank(compare, nodes[a].X) <= rank(compare, nodes[b].X)
-//@   at after "slices.SortFunc(nodes, func(a, b *node[T]) int { return compare(a.X, b.X) })": assert [C01] forall j int :: {sq[j]} 0 <= j && j < len(keys) ==> n0[addr(nodes, j)] != nil && 0 <= sq[j] && sq[j] < len(keys) && nodes[sq[j]] == n0[addr(nodes, j)] && sp[sq[j]] == j && nodes[sq[j]].X == keys[j]
 //@   at after "tree.max = len(nodes)": ghost cs = CompactFunc_src
 //@   at after "tree.max = len(nodes)": ghost ck = CompactFunc_keep
 //@   at after "tree.max = len(nodes)": assert [C01] forall i int :: {nodes[i]} 0 <= i && i < len(nodes) ==> 0 <= cs[i] && cs[i] < len(keys) && nodes[i] == n1[addr(nodes, cs[i])] && nodes[i] != nil && fresh(nodes[i]) && nodes[i].X == keys[sp[cs[i]]]
@@ -449,7 +448,6 @@ package stree
 //@   at after "tree.root = extract(nodes)": ghost tree.elems = ite(tree.root == nil, emptyset(tree.elems), tree.root.keys)
 //@   at after "tree.root = extract(nodes)": ghost tree.vals = tree.root.rep
 //@   at after "tree.root = extract(nodes)": ghost from = lambda k int :: sp[cs[extract_ki[k]]]
-//@   at after "tree.max = len(nodes)": assert [C01] forall j int :: {ck[j]} 0 <= j && j < len(keys) ==> 0 <= ck[j] && ck[j] < len(nodes) && rank(compare, nodes[ck[j]].X) == rank(compare, n1[addr(nodes, j)].X)
 //@   at after "tree.root = extract(nodes)": assert [C01] forall i int :: {keys[i]} 0 <= i && i < len(keys) ==> 0 <= sq[i] && sq[i] < len(keys) && 0 <= ck[sq[i]] && ck[sq[i]] < len(nodes) && rank(compare, nodes[ck[sq[i]]].X) == rank(compare, keys[i])
 //@
 // extract builds a search tree from a slice of pairwise different nodes sorted by strictly ascending rank (what New
